@@ -3,7 +3,7 @@
 package main
 
 // Text formats (json, jsonl, yaml, toml, xml, csv) and bson: no Lean model; the harness decides itself
-// (`!OK` / `!PROPFAIL` / `!KNOWN` lines).  Values are encoded by Go's / third-party encoders (bson: a
+// (`!OK` / `!PROPFAIL` lines).  Values are encoded by Go's / third-party encoders (bson: a
 // hand-written encoder), decoded by fq (`decode($f) | tovalue`, bson: `torepr`) and compared with the source.
 // Trailing garbage must be a decode error; every sampled strict prefix must be an error whenever the
 // reference decoder of the same library rejects it (and must not be an error when it accepts it).
@@ -593,6 +593,20 @@ func runText(o *hlib.Out, r *hlib.Rand, n int, want map[string]bool) {
 			}
 		}
 	}
+	// directed inputs that must be reported as decode errors (corpus of past findings first)
+	mustErr := []struct{ f, in string }{
+		{"csv", "a,b\nc\n"}, {"csv", "a,b\n\"c\n"}, // csv-error-not-reported (fixed 9e1007fc)
+		{"json", "{\"a\":"}, {"json", "[1,2"}, {"json", "{\"a\":1} x"}, {"json", "1 2"}, {"json", ""},
+		{"jsonl", "{\"a\":1}\n{\n"}, {"yaml", "a: [1, 2"}, {"yaml", "a: 1\n---\nb: 2\n"}, {"yaml", "1"},
+		{"toml", "a = [1, 2"}, {"toml", "a = 1\nb"}, {"toml", ""},
+		{"xml", "<a><b>1</b>"}, {"xml", "<a></a>x"}, {"xml", "<a></a><b/>"}, {"xml", "<a"},
+		{"bson", "\x05\x00\x00\x00"}, {"bson", "\x0c\x00\x00\x00\x10a\x00\x01\x00\x00"},
+	}
+	for _, m := range mustErr {
+		if len(want) == 0 || want[m.f] || want["text"] {
+			ps = append(ps, probe{&tdoc{format: m.f}, "musterr", []byte(m.in)})
+		}
+	}
 	cs := make([]*tcase, len(ps))
 	for i, p := range ps {
 		cs[i] = &tcase{format: p.d.format, in: p.in}
@@ -603,7 +617,12 @@ func runText(o *hlib.Out, r *hlib.Rand, n int, want map[string]bool) {
 		// NaN renders as dNaN on the source side: compare after mapping fq's NaN patterns
 		obsN := obs
 		if strings.Contains(p.d.expected, "dNaN") {
-			obsN = nanRE.ReplaceAllString(obs, "dNaN")
+			obsN = nanRE.ReplaceAllStringFunc(obs, func(t string) string {
+				if strings.HasSuffix(t, "ff0000000000000") { // +-inf
+					return t
+				}
+				return "dNaN"
+			})
 		}
 		op := fmt.Sprintf("%s %s %s", p.d.format, p.kind, hlib.Hex(p.in))
 		verdict, why := "OK", ""
@@ -616,11 +635,13 @@ func runText(o *hlib.Out, r *hlib.Rand, n int, want map[string]bool) {
 			if obsN != "ok "+p.d.expected+" -" {
 				verdict, why = "PROPFAIL", "trailing data changed the value: expected=ok "+p.d.expected+" got="+obs
 			}
+		case "musterr":
+			if obs != "err" {
+				verdict, why = "PROPFAIL", "malformed input not reported as a decode error: got="+obs
+			}
 		case "garbage":
 			if obs != "err" {
-				if p.d.format == "csv" && csvRef(p.in) != nil {
-					verdict, why = "KNOWN", "csv-error-not-reported got="+obs
-				} else if p.d.format == "csv" {
+				if p.d.format == "csv" && csvRef(p.in) == nil {
 					verdict = "OK" // more records are not garbage for csv
 				} else {
 					verdict, why = "PROPFAIL", "trailing garbage accepted: got="+obs
@@ -635,11 +656,7 @@ func runText(o *hlib.Out, r *hlib.Rand, n int, want map[string]bool) {
 			}
 			switch {
 			case refErr != nil && obs != "err":
-				if p.d.format == "csv" {
-					verdict, why = "KNOWN", "csv-error-not-reported got="+obs
-				} else {
-					verdict, why = "PROPFAIL", "truncated input not reported as an error ("+refErr.Error()+"): got="+obs
-				}
+				verdict, why = "PROPFAIL", "truncated input not reported as an error ("+refErr.Error()+"): got="+obs
 			case refErr == nil && obs == "err":
 				verdict, why = "PROPFAIL", "prefix accepted by the reference decoder is rejected"
 			}
@@ -650,8 +667,6 @@ func runText(o *hlib.Out, r *hlib.Rand, n int, want map[string]bool) {
 		}
 		if verdict == "OK" {
 			o.Verdict("OK", op)
-		} else if verdict == "KNOWN" {
-			o.Verdict("KNOWN", why+" "+op)
 		} else {
 			o.Verdict(verdict, why+" "+op)
 		}
